@@ -815,7 +815,7 @@ int main(int argc, char** argv) {
     return 0;
   }
   if (getenv("VERIF_PROFILE")) pool().at_worker_exit = []() { for (auto& kv : PROF) fprintf(stderr, "PROF %-30s %8.3f %8ld\n", kv.first.c_str(), kv.second.first, kv.second.second); };
-  pool().run((long long)ITEMS.size(), ARGS.jobs, fn, cf, ARGS, 30);
+  pool().run((long long)ITEMS.size(), ARGS.jobs, fn, cf, ARGS, 90);   // wall clock, last resort only: divergence is caught by the CPU-time guard
   bool complete = counter(CNT_SKIPPED) == 0 && counter(CNT_REFCRASH) == 0;
   std::vector<std::string> samples;
   { Data d = INITS[n_empty + 1].d; RECS.clear(); RECS.push_back(Rec{-1, -1});
